@@ -99,7 +99,7 @@ func writeManifest(path string) error {
 			"name":              "verifcheck",
 			"path":              "cmd/verifcheck",
 			"serves_properties": served,
-			"kind_free_text":    "repository-specific static analyser (go/packages + go/types + go/ssa + CFG reachability + table/sibling agreement + asm text scan); nothing in /repo is executed",
+			"kind_free_text":    "repository-specific static analyser (go/packages + go/types + go/ssa): interprocedural must-cross / lockset / effect rules on CFGs and the call graph, abstract and finite-domain interpretation of the SSA of the anchored functions against specifications computed in the checker (DESIGN.md section 14 states which rules enumerate an abstract domain exhaustively and which evaluate a boundary grid or an input table), table/sibling agreement, assembly text scan; nothing in /repo is compiled, built with a tag, or executed",
 		}},
 		"checks":         checks,
 		"not_applicable": na,
